@@ -54,7 +54,10 @@ def point_strategy(coord=None, allow_empty=True):
     d = st.fixed_dictionaries({}, optional={"x": c, "y": c, "z": c})
     if not allow_empty:
         d = d.filter(lambda p: len(p) > 0)
-    return d
+    # single-axis requests are the common case in real programs and the ones
+    # where partial-axis bookkeeping goes wrong: give them extra weight
+    single = st.tuples(st.sampled_from(["x", "y", "z"]), c).map(lambda t: {t[0]: t[1]})
+    return st.one_of(d, d, single)
 
 
 def small_coord():
@@ -161,6 +164,11 @@ def build_shape(g, d, clockwise=None):
         for (ox, oy, oz) in d["pts"]:
             cur = (cur[0] + ox, cur[1] + oy, cur[2] + (oz if d["zgiven"] else 0.0))
             pts_abs.append(cur)
+        if d.get("revisit") is not None and len(pts_abs) >= 2:
+            # pass again through an earlier control point (figure-eight)
+            pts_abs.append(pts_abs[d["revisit"] % (len(pts_abs) - 1)])
+        if d.get("closed"):
+            pts_abs.append(p)          # come back to the start position exactly
         args, prev = [], p
         for q in pts_abs:
             if g.distance_mode.is_relative:
